@@ -32,6 +32,8 @@ func init() {
 			{ID: "C06.9", Desc: "storability depends on the request only through no-store", Run: func(c *Ctx) { ruleEvaluatorRequestDirectives(c, "C06.9") }, MinSites: 1},
 			{ID: "C06.11", Desc: "no-store is not hidden by a backslash outside a quoted-string", Run: func(c *Ctx) { ruleEscapeOnlyInQuotes(c, "C06.11") }, MinSites: 1},
 			{ID: "C06.12", Desc: "in the list splitter an escaped character is consumed before quotes and commas are interpreted (no-store behind ext=\"a\\\"b\")", Run: func(c *Ctx) { ruleC12_7(c); renameRule(c, "C12.7", "C06.12") }, MinSites: 1},
+			{ID: "C06.13", Desc: "Cache-Control is read through all of its field lines (no-store on a second line)", Run: func(c *Ctx) { ruleRLIST(c, "C06.13", "Cache-Control") }, MinSites: 1},
+			{ID: "C06.14", Desc: "validators are written onto a copy of the caller's header (a polluted request makes a later unconditional GET come back 304)", Run: func(c *Ctx) { ruleC02_3(c); renameRule(c, "C02.3", "C06.14") }, MinSites: 1},
 		},
 	})
 }
